@@ -35,6 +35,29 @@ theorem graph_ops_notify (g : G) (hc : Consistent g) (op : Op) :
       (∀ e, g.hasEdge e = true → (g.applyR op).state.hasEdge e = false → e ∈ notifiedEdges evs) :=
   G.applyR_notified hc op
 
+/-- `orientate()` — the public mutator that re-orients the graph from its root through a sequence of
+`switchNodes` calls steered by a copy of the graph, and may raise half-way (reciprocal relations,
+a graph that is not connected): whether it succeeds or raises the three views agree afterwards,
+and nothing was removed without the observers being told -/
+theorem orientate_consistent (g : G) (hc : Consistent g) :
+    Consistent g.orientate.state ∧
+    ∃ evs, g.orientate.state.pending = g.pending ++ evs ∧
+      (∀ n, g.hasNode n = true → g.orientate.state.hasNode n = false → n ∈ notifiedNodes evs) ∧
+      (∀ e, g.hasEdge e = true → g.orientate.state.hasEdge e = false → e ∈ notifiedEdges evs) := by
+  refine ⟨?_, G.orientate_notified hc⟩
+  have := G.orientate_consistent hc
+  cases h : g.orientate <;> rw [h] at this <;> exact this
+
+/-- … along every history of the other operations -/
+theorem orientate_consistent_inv (d : Bool) (ops : List Op) : Consistent ((Graph.empty d).run ops).orientate.state :=
+  (orientate_consistent _ (consistent_inv d ops)).1
+
+/-- non-vacuity: 1->0, 1->2 rooted at 0 is re-oriented into 0->1->2 (edge ids kept); with the
+reciprocal pair 0<->1 the call raises -/
+example : ((Graph.empty true).run [.createNode, .createNode, .createNode, .link 1 0, .link 1 2]).orientate.state.edges
+    = [(0, (0, 1)), (1, (1, 2))] := by decide
+example : ((Graph.empty true).run [.createNode, .createNode, .link 1 0, .link 0 1]).orientate.raised = true := by decide
+
 /-- the graph a world is left with by a graph-level operation -/
 theorem graphOp_graph (w : World) (op : Op) :
     (w.step (.graph op)).g = { (w.g.applyR op).state with pending := [] } := by
@@ -143,6 +166,7 @@ theorem winv_stepX (w : World) (hw : WInv w) (op : WOpX) : WInv (w.stepX op) := 
   | assign j k => exact all_world hw (world_assign_inv hw j k)
   | attach k => exact all_world hw (world_attach_inv hw k)
   | setRoot k a => exact all_world hw (world_setRootObj_inv hw k a)
+  | orientate => exact world_orientate_inv hw
   | graphAssign d hist =>
     have hc := consistent_inv d hist
     exact world_graphAssign_inv hw ⟨hc.views, hc.node_lt, hc.edge_lt, ⟨hc.sorted.nodes, hc.sorted.edges, hc.sorted.rows⟩⟩
